@@ -677,23 +677,33 @@ func checkRound2C04(c *core.Ctx) {
 					if !isIf {
 						return true
 					}
-					callsRegular := false
-					ast.Inspect(is.Body, func(z ast.Node) bool {
-						if call, ok := z.(*ast.CallExpr); ok {
-							if f := core.Callee(info, call); f != nil && f.Name() == "callFunction" {
-								callsRegular = true
-							}
+					regularIn := func(n ast.Node) bool {
+						r := false
+						if n == nil {
+							return false
 						}
-						return true
-					})
-					if !callsRegular {
+						ast.Inspect(n, func(z ast.Node) bool {
+							if call, ok := z.(*ast.CallExpr); ok {
+								if f := core.Callee(info, call); f != nil && f.Name() == "callFunction" {
+									r = true
+								}
+							}
+							return true
+						})
+						return r
+					}
+					// the regular call is in the branch taken when the instances differ: then-arm of `!=`, else-arm of `==`
+					thenReg, elseReg := regularIn(is.Body), is.Else != nil && regularIn(is.Else)
+					if !thenReg && !elseReg {
 						return true
 					}
 					cond = core.ExprStr(is.Cond)
-					if be, ok := ast.Unparen(is.Cond).(*ast.BinaryExpr); ok && be.Op == token.NEQ {
+					if be, ok := ast.Unparen(is.Cond).(*ast.BinaryExpr); ok && (be.Op == token.NEQ || be.Op == token.EQL) {
 						fx, fy := core.FieldOf(info, be.X), core.FieldOf(info, be.Y)
 						if fx != nil && fy != nil && fx == fy && strings.Contains(fx.Type().String(), "ModuleInstance") {
-							ok2 = true
+							if (be.Op == token.NEQ && thenReg) || (be.Op == token.EQL && elseReg) {
+								ok2 = true
+							}
 						}
 					}
 					return true
